@@ -205,7 +205,7 @@ Definition send_value (cs : list chan) (hops : nat) (bs : nat) (cut_at : nat) (p
           let '(t, decide, pr, recv, delivered) :=
             match r with
             | WOk x =>
-                let dec := map (fun e => existsb (fun a => r_id (a_req a) =? fst e) (w_acc x)) (w_table x) in
+                let dec := decisions x in
                 let pr := pairing (w_table x) (w_tabs x) (w_acc x) in
                 match w_missing x with
                 | [] => (w_table x, dec, pr, V_OK, true)
